@@ -320,6 +320,6 @@ def Node.apply (n : Node) : Op → Node
 def Node.run (n : Node) (ops : List Op) : Node := ops.foldl Node.apply n
 
 /-- What a block factory on this node puts into `Confirms` (blockfactory.go: `block.BlockNo() - lpbNo`, uint64). -/
-def honestConfirms (no lpb : Nat) : Nat := (no + u64 - lpb % u64) % u64
+def honestConfirms (no lpb : Nat) : Nat := ((LibQuorum.factoryConfirms no lpb) % (u64 : Int)).toNat
 
 end Aergo.Lib
